@@ -78,6 +78,28 @@ func main() {
 			}
 		}
 		return
+	case "facts":
+		for _, fn := range c.Concrete() {
+			if flag.NArg() > 1 && !strings.Contains(fnKey(fn), flag.Arg(1)) {
+				continue
+			}
+			fmt.Printf("### %s\n", fnKey(fn))
+			eachInstr(fn, func(in ssa.Instruction) {
+				switch x := in.(type) {
+				case *ssa.Return:
+					var vs []string
+					for _, v := range retVals(x) {
+						vs = append(vs, atomStr(v))
+					}
+					fmt.Printf("  return %v at %s\n      facts: %v\n", vs, c.InstrPos(in), keysOf(factStrs(fn, in)))
+				case *ssa.Call:
+					fmt.Printf("  call %s at %s\n      facts: %v\n", atomStr(x), c.InstrPos(in), keysOf(factStrs(fn, in)))
+				case *ssa.Store:
+					fmt.Printf("  store %s <- %s at %s\n      facts: %v\n", atomStr(x.Addr), atomStr(x.Val), c.InstrPos(in), keysOf(factStrs(fn, in)))
+				}
+			})
+		}
+		return
 	case "fns":
 		for _, fn := range c.Concrete() {
 			fmt.Println(fnKey(fn), "\t", fn.String())
@@ -103,3 +125,12 @@ func main() {
 }
 
 var _ = ssa.NaiveForm
+
+func keysOf(m map[string]bool) []string {
+	var o []string
+	for k := range m {
+		o = append(o, k)
+	}
+	sort.Strings(o)
+	return o
+}
